@@ -28,7 +28,7 @@ pub fn chunkings(fe: &Fe, bs: usize, l: usize, kind: Kind) -> Vec<Vec<P>> {
 }
 
 pub fn run(ctx: &Ctx) -> Outcome {
-    let cfgs = ctx.cfgs();
+    let cfgs = ctx.cfgs_with_sweep();
     let mut units: Vec<(&Cfg, &'static str, Dir)> = vec![];
     for c in &cfgs {
         for fam in ["cfb", "cfb8", "ofb"] {
@@ -42,13 +42,14 @@ pub fn run(ctx: &Ctx) -> Outcome {
     let reports = par_map(&units, |(cfg, fam, dir)| {
         let mut rep = Report::new(format!("{}/{}-{}", cfg.name, fam, dir.s()));
         let bs = cfg.bs;
-        let lmax = tier.pick(3 * bs + 2, 4 * bs + 3);
+        let sweep = cfg.sets.contains('s');
+        let lmax = if sweep { 2 * bs + 1 } else { tier.pick(3 * bs + 2, 4 * bs + 3) };
         let lens = byte_lengths(bs, lmax);
         let fes = family_frontends(cfg, fam, *dir);
         let pre = dirty(lmax);
-        for key in keys(seed, cfg.key_len).iter().take(tier.pick(1, 2)) {
-            for (ivn, iv) in iv_variants(seed, bs).into_iter().skip(light(cfg, tier)) {
-                for (dn, data) in data_variants(seed, 0xC03, lmax).into_iter().skip(light(cfg, tier)) {
+        for key in keys(seed, cfg.key_len).iter().take(if sweep { 1 } else { tier.pick(1, 2) }) {
+            for (ivn, iv) in iv_variants(seed, bs).into_iter().skip(if sweep { 2 } else { light(cfg, tier) }) {
+                for (dn, data) in data_variants(seed, 0xC03, lmax).into_iter().skip(if sweep { 2 } else { light(cfg, tier) }) {
                     for &l in &lens {
                         let m = &data[..l];
                         let (want, want_state) = family_ref(cfg, fam, *dir, key, &iv, m);
@@ -88,7 +89,7 @@ pub fn run(ctx: &Ctx) -> Outcome {
     let mut o = merge(reports);
     o.rule = "stateless exhaustive: family in {cfb, cfb8, ofb} x direction x configuration x front-end (block-level object, AsyncStreamCipher one-shot, buffered CFB, OFB as block encryptor / block decryptor / keystream core apply / keystream core write / byte stream) x key x IV x data x byte length x chunking (whole, unit-wise through single- and multi-block entry points, every explored two-way split) x call form; bytes and exported state compared with the reference recurrence; monitor: no call of the cipher's decryption direction while data is processed".into();
     o.configs = cfgs.iter().map(|c| c.name.clone()).collect();
-    o.bounds = vec![("max_len".into(), J::Str(tier.pick("3*bs+2", "4*bs+3").into())), ("lengths".into(), J::Str("every length for bs<=16, residues {0,1,2,bs/2,bs-2,bs-1} per block count otherwise".into())), ("keys".into(), J::Int(tier.pick(1, 2)))];
+    o.bounds = vec![("all_sizes_sweep".into(), J::Str(if tier == Tier::Thorough && cfgs.iter().any(|c| c.sets.contains('s')) { "every block size 1..=255 (parallel width 2) with reduced length bounds".into() } else { "not in this tier".to_string() })), ("max_len".into(), J::Str(tier.pick("3*bs+2", "4*bs+3").into())), ("lengths".into(), J::Str("every length for bs<=16, residues {0,1,2,bs/2,bs-2,bs-1} per block count otherwise".into())), ("keys".into(), J::Int(tier.pick(1, 2)))];
     o.assumptions = vec!["the decrypt-direction monitor is the harness cipher's own call counter; real-cipher configurations are compared on bytes only".into()];
     o
 }
